@@ -5,6 +5,7 @@ package main
 // evidence when hit.
 
 import (
+	"os"
 	"crypto/md5"
 	"fmt"
 	"go/types"
@@ -204,11 +205,11 @@ func (e *Engine) collectDeps(v Value, out *[]*Term, st *State, depth int) {
 		if _, ok := concreteString(x); !ok {
 			*out = append(*out, x.len)
 			if l, ok := x.len.ConstVal(); ok {
-				for i := uint64(0); i < l && i < 64; i++ {
+				for i := uint64(0); i < l && i < 4096; i++ {
 					e.collectDeps(e.arrRead(x.arr, e.tm.Add(x.off, e.c64(i))), out, st, depth+1)
 				}
 			} else if x.max >= 0 {
-				for i := 0; i < x.max && i < 64; i++ {
+				for i := 0; i < x.max && i < 4096; i++ {
 					e.collectDeps(e.arrRead(x.arr, e.tm.Add(x.off, e.c64(uint64(i)))), out, st, depth+1)
 				}
 			}
@@ -244,14 +245,44 @@ func (e *Engine) collectDeps(v Value, out *[]*Term, st *State, depth int) {
 	}
 }
 
+// expandChoices resolves guarded unions among variadic arguments (an error merged from several
+// callee outcomes, for instance): one outcome per feasible combination of alternatives.
+func (e *Engine) expandChoices(st *State, vs []Value, k func(st *State, vs []Value) []Outcome) []Outcome {
+	for i, v := range vs {
+		ch, ok := v.(*ChoiceV)
+		if !ok {
+			continue
+		}
+		var outs []Outcome
+		for _, al := range ch.alts {
+			if !e.feasible(st, al.cond) {
+				continue
+			}
+			s2 := st.clone()
+			s2.assume(al.cond)
+			s2.splits++
+			nv := append([]Value(nil), vs...)
+			nv[i] = al.v
+			outs = append(outs, e.expandChoices(s2, nv, k)...)
+		}
+		return outs
+	}
+	return k(st, vs)
+}
+
 func inFmtErrorf(e *Engine, st *State, fn *ssa.Function, args []Value, site ssa.Instruction) []Outcome {
+	return e.expandChoices(st, e.variadic(st, args[1]), func(st *State, vs []Value) []Outcome {
+		return fmtErrorf(e, st, args, vs)
+	})
+}
+
+func fmtErrorf(e *Engine, st *State, args []Value, vs []Value) []Outcome {
 	format := "?"
 	if s, ok := args[0].(*StrV); ok {
 		if cs, ok := concreteString(s); ok {
 			format = cs
 		}
 	}
-	vs := e.variadic(st, args[1])
 	var wrapped []Value
 	var deps []*Term
 	if strings.Contains(format, "%w") {
@@ -397,7 +428,12 @@ func (e *Engine) opaqueString(st *State, kind string, vs []Value) *StrV {
 }
 
 func inFmtSprintf(e *Engine, st *State, fn *ssa.Function, args []Value, site ssa.Instruction) []Outcome {
-	vs := e.variadic(st, args[1])
+	return e.expandChoices(st, e.variadic(st, args[1]), func(st *State, vs []Value) []Outcome {
+		return fmtSprintf(e, st, args, vs, site)
+	})
+}
+
+func fmtSprintf(e *Engine, st *State, args []Value, vs []Value, site ssa.Instruction) []Outcome {
 	if s, ok := args[0].(*StrV); ok {
 		if cs, ok := concreteString(s); ok {
 			if r := e.formatIfPossible(st, cs, vs); r != nil {
@@ -405,11 +441,23 @@ func inFmtSprintf(e *Engine, st *State, fn *ssa.Function, args []Value, site ssa
 			}
 		}
 	}
+	if os.Getenv("VP_LEAKDBG") != "" {
+		d := ""
+		for _, v := range vs {
+			d += " " + describe(v)
+		}
+		fmt.Printf("sprintf opaque: %s <-%s @ %s\n", describe(args[0]), d, e.where(site))
+	}
 	return one(st, e.opaqueString(st, "sprintf", append([]Value{args[0]}, vs...)))
 }
 
 func inFmtSprint(e *Engine, st *State, fn *ssa.Function, args []Value, site ssa.Instruction) []Outcome {
-	vs := e.variadic(st, args[0])
+	return e.expandChoices(st, e.variadic(st, args[0]), func(st *State, vs []Value) []Outcome {
+		return fmtSprint(e, st, vs)
+	})
+}
+
+func fmtSprint(e *Engine, st *State, vs []Value) []Outcome {
 	if len(vs) == 1 {
 		if r := e.renderValue(st, vs[0], 'v'); r != nil {
 			return one(st, r)
